@@ -151,7 +151,7 @@ func c14queries(c *evid.Ctx) {
 	}
 	reps := 3
 	if !c.Quick() {
-		reps = 12
+		reps = 40
 	}
 	r := c.R.Fork("q")
 	idx := 0
@@ -165,7 +165,7 @@ func c14queries(c *evid.Ctx) {
 		}
 	}
 	// Pairs of placements at different points (sampled).
-	np := c.Scale(200, 5000)
+	np := c.Scale(200, 60000)
 	for i := 0; i < np && c.NumViolations() < 20; i++ {
 		a, b := gen.Pick(r, plans), gen.Pick(r, plans)
 		if a.n != b.n || a.point == "none" || b.point == "none" || a.limiter != "" || b.limiter != "" {
@@ -551,6 +551,15 @@ func c14traversals(c *evid.Ctx) {
 	if !c.Quick() {
 		R = 200
 	}
+	variants := 1
+	if !c.Quick() {
+		variants = 5 // the same scenario over five different networks and fault points
+	}
+	all := scen
+	scen = nil
+	for v := 0; v < variants; v++ {
+		scen = append(scen, all...)
+	}
 	for si, sc := range scen {
 		if si%c.NBatch != c.Batch || c.NumViolations() >= 20 {
 			continue
@@ -631,7 +640,7 @@ func c14traversals(c *evid.Ctx) {
 		c.Eval(1)
 		c.Count("traversal scenarios run", 1)
 		c.Count("traversal operations that returned", returned)
-		c.Distinct(gen.Hash64("trav", sc.op, sc.net, sc.fault))
+		c.Distinct(gen.Hash64("trav", sc.op, sc.net, sc.fault, si/len(all)))
 		n.Quiesce(nil)
 		if st := n.S.Stats(); st.OutstandingTransactions != 0 {
 			c.Violation("transaction-left-pending:"+sc.op, fmt.Sprintf("%s: %d outstanding", desc, st.OutstandingTransactions), nil)
